@@ -127,9 +127,12 @@ def plan_for(prop, tier, seed):
         if quick:
             p["jobs"] += [ex("miri-i686", "default", 2, 55, 2, seed + 61, weight=10, timeout=1500, label="miri-i686"),
                           ex("miri-be", "sharing", 2, 55, 1, seed + 62, weight=10, timeout=1500, label="miri-powerpc64-be"),
-                          ex("miri-be32", "default", 2, 55, 1, seed + 63, weight=10, timeout=1500, label="miri-armeb-be32")]
+                          ex("miri-be32", "default", 2, 55, 1, seed + 63, weight=10, timeout=1500, label="miri-armeb-be32"),
+                          ex("miri-rel", "default", 2, 55, 1, seed + 64, weight=10, timeout=1500, label="miri-release-profile")]
     elif n == 2:
         p["jobs"] = explore_mix(["sharing", "static", "errorpath", "shrink"], tier, seed) + HUGE
+        if quick:
+            p["jobs"] += [ex("miri-rel", "sharing", 2, 55, 2, seed + 64, weight=10, timeout=1500, label="miri-release-profile")]
     elif n == 3:
         p["jobs"] = explore_mix(["default", "sharing", "errorpath", "shrink"], tier, seed, asan=True, memcheck=True) + HUGE + \
             [eng("asan", "huge", ["--max", 1 << 20], 1, seed + 52, weight=3)]
